@@ -73,6 +73,21 @@ pub struct Violation {
     pub expected: String,
 }
 
+/// Something to ask of the COMPILED output of a clean session (value stage of
+/// C06): deserialise `input` into the named type and serialise it again
+/// (`property-defaults`), or serialise `<T as Default>::default()`
+/// (`type-default`); every expectation names a member ("" = the whole value),
+/// the schema's default for it, and the class of the default site.
+#[derive(Debug, Clone, Serialize, Deserialize, PartialEq)]
+pub struct ValueProbe {
+    pub type_name: String,
+    pub kind: String,
+    pub site: String,
+    #[serde(default)]
+    pub input: Option<Value>,
+    pub expect: Vec<(String, Value, String)>,
+}
+
 #[derive(Debug, Clone, Default, Serialize)]
 pub struct Outcome {
     pub events: Vec<Event>,
@@ -90,6 +105,9 @@ pub struct Outcome {
     pub last_output: Option<String>,
     /// harness-level failure (not a verdict about typify)
     pub harness_error: Option<String>,
+    /// questions for the value stage (clean top-level sessions only)
+    #[serde(skip)]
+    pub value_probes: Vec<ValueProbe>,
 }
 
 impl Outcome {
@@ -795,6 +813,128 @@ impl<'d> Session<'d> {
             Ok(Ok(id)) => Ok(id),
             Ok(Err(e)) => Err(format!("err:{}", err_variant(&e))),
             Err(e) => Err(format!("panic:{}", classify_panic(&panic_message(e)))),
+        }
+    }
+
+    /// Value probes for every named type whose schema the model knows:
+    /// definitions, hinted add_type schemas and titled roots.
+    fn build_value_probes(&mut self, ops: &[Op]) {
+        let mut targets: Vec<(String, Value, String)> = Vec::new();
+        let type_name = |ts: &TypeSpace, id: &TypeId| -> Option<String> {
+            catch_unwind(AssertUnwindSafe(|| ts.get_type(id).ok().map(|t| t.name()))).ok().flatten()
+        };
+        for n in self.def_order.clone() {
+            if n.starts_with("#root#") || self.conflicted.contains(&n) {
+                continue;
+            }
+            let Some(sch) = self.defs.get(&n).cloned() else { continue };
+            if let Ok(id) = self.lookup_def_id(&n) {
+                if let Some(name) = type_name(&self.ts, &id) {
+                    targets.push((name, sch, format!("definition {n}")));
+                }
+            }
+        }
+        for (i, op) in ops.iter().enumerate() {
+            let Some(Some(CallResult::Ok(Some(id)))) = self.results.get(i) else { continue };
+            match op {
+                Op::AddType { schema, hint: Some(h), poison: None } => {
+                    if let Some(name) = type_name(&self.ts, id) {
+                        targets.push((name, schema.clone(), format!("add_type_with_name hint {h}")));
+                    }
+                }
+                Op::AddRootSchema { doc, poison: None } if doc.get("title").is_some() => {
+                    let mut root = doc.clone();
+                    if let Some(o) = root.as_object_mut() {
+                        o.remove("definitions");
+                        o.remove("$schema");
+                    }
+                    if serde_json::to_string(&root).map(|t| t.contains("\"$ref\":\"#\"")).unwrap_or(true) {
+                        continue;
+                    }
+                    if let Some(name) = type_name(&self.ts, id) {
+                        targets.push((name, root, "titled root".to_string()));
+                    }
+                }
+                _ => {}
+            }
+        }
+        let defs = self.defs.clone();
+        let strip = |v: &Value| -> Value {
+            let mut v = v.clone();
+            if let Some(o) = v.as_object_mut() {
+                o.remove("default");
+            }
+            v
+        };
+        let mut seen: BTreeSet<(String, String)> = BTreeSet::new();
+        for (name, sch, site) in targets {
+            // ---- the Default impl of the named type
+            if let Some(d) = sch.get("default") {
+                let stripped = strip(&sch);
+                if model::validate(&stripped, d, &defs, 0) == Some(true) && seen.insert((name.clone(), "type-default".into())) {
+                    self.out.value_probes.push(ValueProbe {
+                        type_name: name.clone(),
+                        kind: "type-default".into(),
+                        site: site.clone(),
+                        input: None,
+                        expect: vec![(String::new(), d.clone(), model::site_class(&stripped, d, &defs))],
+                    });
+                }
+            }
+            // ---- serde defaults of missing properties
+            let plain_object = sch.get("type") == Some(&json!("object"))
+                && ["oneOf", "anyOf", "allOf", "not", "$ref"].iter().all(|k| sch.get(*k).is_none())
+                && !matches!(sch.get("additionalProperties"), Some(Value::Object(_)));
+            let Some(props) = sch.get("properties").and_then(|p| p.as_object()) else { continue };
+            if !plain_object {
+                continue;
+            }
+            let required: BTreeSet<String> = sch
+                .get("required")
+                .and_then(|r| r.as_array())
+                .map(|r| r.iter().filter_map(|x| x.as_str().map(|x| x.to_string())).collect())
+                .unwrap_or_default();
+            let mut rng = crate::prng::Rng::new(fnv64(name.as_bytes()));
+            let mut input = serde_json::Map::new();
+            let mut buildable = true;
+            for r in &required {
+                match props.get(r) {
+                    Some(ps) => match crate::gen::gen_instance(&mut rng, &strip(ps), &defs, 0) {
+                        Some(v) => {
+                            input.insert(r.clone(), v);
+                        }
+                        None => buildable = false,
+                    },
+                    None => {
+                        input.insert(r.clone(), json!(1));
+                    }
+                }
+            }
+            if !buildable {
+                self.out.probe("value_probe.required_member_not_buildable");
+                continue;
+            }
+            let mut expect = Vec::new();
+            for (p, ps) in props {
+                if required.contains(p) {
+                    continue;
+                }
+                if let Some(d) = ps.get("default") {
+                    let stripped = strip(ps);
+                    if model::validate(&stripped, d, &defs, 0) == Some(true) {
+                        expect.push((p.clone(), d.clone(), model::site_class(&stripped, d, &defs)));
+                    }
+                }
+            }
+            if !expect.is_empty() && seen.insert((name.clone(), "property-defaults".into())) {
+                self.out.value_probes.push(ValueProbe {
+                    type_name: name,
+                    kind: "property-defaults".into(),
+                    site,
+                    input: Some(Value::Object(input)),
+                    expect,
+                });
+            }
         }
     }
 
@@ -1507,6 +1647,9 @@ fn run_ops_inner(settings: &SettingsDesc, ops: &[Op], faults_mode: bool, attribu
     }
     if s.clean {
         s.out.final_output = s.last_render.clone();
+        if attribute && !s.model_off && !s.is_variant {
+            s.build_value_probes(ops);
+        }
     }
     s.out.last_output = s.last_render.clone();
     s.out
